@@ -46,15 +46,37 @@ def run(db, rep, feat, tier):
 
 
 def r1(db, rep):
-    r = rep.rule("R1", "K5", "direction mirror: instruction_forward/backward, edge_forward/backward, "
-                 "empty_block_forward/backward call the same IL accessors modulo {edges_out<->edges_in, head<->tail, "
-                 "first<->last}; forward()/backward() dispatch each variant to the helper of their own direction")
-    for stem in ("instruction", "edge", "empty_block"):
-        f, b = "%s::%s_forward" % (RPL, stem), "%s::%s_backward" % (RPL, stem)
-        rep.anchor(f in db.mir and b in db.mir, "%s / %s" % (f, b))
+    r = rep.rule("R1", "K5", "direction mirror: for each location variant, the helper forward() dispatches it to and the helper "
+                 "backward() dispatches it to call the same IL accessors modulo {edges_out<->edges_in, head<->tail, "
+                 "first<->last}; the forward helpers follow outgoing edges / edge tails, the backward helpers incoming edges / "
+                 "edge heads (helpers are found through the dispatch, not by name)")
+    helper = {}
+    for direction in ("forward", "backward"):
+        fn = "%s::%s" % (RPL, direction)
+        hb = db.hir.get(fn)
+        rep.anchor(hb is not None, fn)
+        m = main_match(hb, "il::location::RefFunctionLocation")
+        rep.anchor(m is not None, "match in %s" % fn)
+        for a in arm_table(m):
+            cs = sorted({c for c in a.callees() if c.startswith(RPL + "::") and c in db.mir and c != fn})
+            for v in a.variants:
+                v = last_seg(v)
+                # a variant handled inline is compared through the dispatching function's arm itself: not supported -> anchor
+                rep.anchor(len(cs) == 1, "%s() dispatches %s to one helper (found %s)" % (direction, v, [last_seg(c) for c in cs]))
+                helper[(direction, v)] = cs[0]
+    OUT = {"Instruction": ("edges_out", "edges_in"), "EmptyBlock": ("edges_out", "edges_in"), "Edge": ("tail", "head")}
+    for v in ("Instruction", "Edge", "EmptyBlock"):
+        rep.anchor(("forward", v) in helper and ("backward", v) in helper, "helpers for %s" % v)
+        f, b = helper[("forward", v)], helper[("backward", v)]
         rep.analysed(f, b)
+        stem = {"Instruction": "instruction", "Edge": "edge", "EmptyBlock": "empty_block"}[v]
         cf, cb = il_callees(db, f), il_callees(db, b)
-        mapped = Counter({SUBST.get(k, k): v for k, v in cb.items()})
+        fwd_acc, bwd_acc = OUT[v]
+        r.decide(cf[fwd_acc] >= 1 and cf[bwd_acc] == 0, "forward|%s" % v, db.where(db.mir[f]),
+                 "forward() handles %s with %s, which follows %s" % (v, last_seg(f), "the wrong direction" if cf[bwd_acc] else "no edges"))
+        r.decide(cb[bwd_acc] >= 1 and cb[fwd_acc] == 0, "backward|%s" % v, db.where(db.mir[b]),
+                 "backward() handles %s with %s, which follows %s" % (v, last_seg(b), "the wrong direction" if cb[fwd_acc] else "no edges"))
+        mapped = Counter({SUBST.get(k, k): v_ for k, v_ in cb.items()})
         # positional access differs legitimately (instructions[0] vs last()): drop direction-neutral helpers
         for k in list(cf):
             if k in ("first", "last"):
@@ -63,28 +85,16 @@ def r1(db, rep):
             if k in ("first", "last"):
                 del mapped[k]
         r.decide(cf == mapped, "%s|mirror" % stem, db.where(db.mir[f]),
-                 "%s_forward and %s_backward are not mirror images: forward-only %s, backward-only %s" % (
-                     stem, stem, dict(cf - mapped), dict(mapped - cf)))
+                 "%s and %s are not mirror images: forward-only %s, backward-only %s" % (
+                     last_seg(f), last_seg(b), dict(cf - mapped), dict(mapped - cf)))
+
         # number of return paths that yield Ok must agree (no extra shortcut in one direction)
         def ok_returns(fn):
             body = db.mir[fn]
-            return sum(1 for blk in body["blocks"] for s in blk["s"]
-                       if s.get("rv", {}).get("variant") == "std::prelude::v1::Ok" and s["d"] == [0])
+            return sum(1 for blk in body["blocks"] for s_ in blk["s"]
+                       if s_.get("rv", {}).get("variant") == "std::prelude::v1::Ok" and s_["d"] == [0])
         r.decide(ok_returns(f) == ok_returns(b), "%s|exits" % stem, db.where(db.mir[b]),
-                 "%s_forward has %d successful exits, %s_backward has %d" % (stem, ok_returns(f), stem, ok_returns(b)))
-    for direction in ("forward", "backward"):
-        fn = "%s::%s" % (RPL, direction)
-        hb = db.hir.get(fn)
-        rep.anchor(hb is not None, fn)
-        m = main_match(hb, "il::location::RefFunctionLocation")
-        rep.anchor(m is not None, "match in %s" % fn)
-        want = {"Instruction": "instruction_" + direction, "Edge": "edge_" + direction, "EmptyBlock": "empty_block_" + direction}
-        for a in arm_table(m):
-            cs = {last_seg(c) for c in a.callees()}
-            for v in a.variants:
-                v = last_seg(v)
-                r.decide(want[v] in cs, "%s|%s" % (direction, v), db.where(hb, a.line),
-                         "%s() dispatches %s to %s" % (direction, v, sorted(c for c in cs if "ward" in c)))
+                 "%s has %d successful exits, %s has %d" % (last_seg(f), ok_returns(f), last_seg(b), ok_returns(b)))
 
 
 def r2(db, rep):
